@@ -239,13 +239,13 @@ func TestWire(t *testing.T) {
 		s.Op("decip b="+Hex(f), ans, false)
 		panicFind(s, "decip b=(65536+"+fmt.Sprint(k)+" bytes)", ans, "C13", "C10")
 		if ans[:2] == "ok" {
-			s.Find(Finding{Property: "C13", Signature: "decip-strict:64k", What: "DecodeIPv4 accepts a buffer 65536 bytes longer than its total-length field says", Ops: []string{fmt.Sprintf("decip of %d bytes announcing %d", len(f), k)}, Observed: ans[:80]})
+			s.Find(Finding{Property: "C13", Signature: "decip-strict:64k", What: "DecodeIPv4 accepts a buffer 65536 bytes longer than its total-length field says", Ops: []string{fmt.Sprintf("decip of %d bytes announcing %d", len(f), k)}, Observed: ans[:min(len(ans), 80)]})
 		}
 		u := f[20:]
 		ans = implDecUDP(u)
 		s.Op("decudp b="+Hex(u), ans, false)
 		if ans[:2] == "ok" {
-			s.Find(Finding{Property: "C13", Signature: "decudp-strict:64k", What: "DecodeUDP accepts a buffer 65536 bytes longer than its length field says", Ops: []string{fmt.Sprintf("decudp of %d bytes announcing %d", len(u), k-20)}, Observed: ans[:80]})
+			s.Find(Finding{Property: "C13", Signature: "decudp-strict:64k", What: "DecodeUDP accepts a buffer 65536 bytes longer than its length field says", Ops: []string{fmt.Sprintf("decudp of %d bytes announcing %d", len(u), k-20)}, Observed: ans[:min(len(ans), 80)]})
 		}
 	}
 	// ARP
